@@ -290,7 +290,7 @@ def run_group(seed, group_names, budget_s, nb_cap, max_calls, out_path, repo):
         if len(samples) < 2 and mode == "random":
             samples.append({"index": i, "kernel": name, "mode": mode, "size_class": d["size_class"], "poisons": res["poisons"], "arg_shapes": [list(a.shape) if isinstance(a, np.ndarray) else repr(a) for a in d["args"]], "sha": res["sha"], "exc": res["exc"]})
         for vclass, msg in res["violations"]:
-            violations.append({"i": i, "kernel": name, "class": vclass, "message": msg, "size_class": d["size_class"], "mode": mode, "poisons": res["poisons"], "args": args_to_json(d["args"]), "outs": [[list(s), str(t)] for s, t in d["outs"]]})
+            violations.append({"i": i, "upto": i, "kernel": name, "class": vclass, "message": msg, "size_class": d["size_class"], "mode": mode, "poisons": res["poisons"], "args": args_to_json(d["args"]), "outs": [[list(s), str(t)] for s, t in d["outs"]]})
         # A2-iii: re-issue an earlier call later in the history, on other buffers
         if res["sha"] is not None and not res["violations"]:
             if len(ring) < 8:
@@ -303,9 +303,9 @@ def run_group(seed, group_names, budget_s, nb_cap, max_calls, out_path, repo):
             ncalls += 3 if PROGRAMS[rname].kind == "gufunc" and rd["outs"] else 2
             repeats += 1
             if r2["sha"] != rsha and not r2["violations"]:
-                violations.append({"i": ri, "kernel": rname, "class": "output-not-repeatable", "message": f"call #{ri} re-issued at history position {i} returned different bytes", "size_class": rd["size_class"], "mode": "repeat", "poisons": r2["poisons"], "args": args_to_json(rd["args"]), "outs": [[list(s), str(t)] for s, t in rd["outs"]]})
+                violations.append({"i": ri, "upto": i, "kernel": rname, "class": "output-not-repeatable", "message": f"call #{ri} re-issued at history position {i} returned different bytes", "size_class": rd["size_class"], "mode": "repeat", "poisons": r2["poisons"], "args": args_to_json(rd["args"]), "outs": [[list(s), str(t)] for s, t in rd["outs"]]})
             for vclass, msg in r2["violations"]:
-                violations.append({"i": ri, "kernel": rname, "class": vclass, "message": msg + f" (on re-issue at history position {i})", "size_class": rd["size_class"], "mode": "repeat", "poisons": r2["poisons"], "args": args_to_json(rd["args"]), "outs": [[list(s), str(t)] for s, t in rd["outs"]]})
+                violations.append({"i": ri, "upto": i, "kernel": rname, "class": vclass, "message": msg + f" (on re-issue at history position {i})", "size_class": rd["size_class"], "mode": "repeat", "poisons": r2["poisons"], "args": args_to_json(rd["args"]), "outs": [[list(s), str(t)] for s, t in rd["outs"]]})
         if len(violations) > 40:
             break
         i += 1
